@@ -34,8 +34,13 @@ pub fn run(cfg: &Cfg, rep: &mut Report) {
             let mut level = 0;
             // plan: (handler, query, kinds)
             let mut plan: Vec<(usize, bool, Vec<DKind>)> = vec![];
+            let mut gave_up = false;
             for u in 0..nunits {
                 let (g, h, nl) = gen_resolving_unit(rng, &rt, level, u == 0);
+                if h == usize::MAX {
+                    gave_up = true;
+                    break; // generator found nothing that resolves uniquely from here: end the message early
+                }
                 level = nl;
                 if u > 0 {
                     ws0(rng, &mut msg);
@@ -59,6 +64,14 @@ pub fn run(cfg: &Cfg, rep: &mut Report) {
                     render_data(rng, &data, &mut msg);
                 }
                 plan.push((h, g.query, data.iter().map(|d| d.kind).collect()));
+            }
+            if plan.is_empty() {
+                ctx.count("skipped.no-resolving-unit");
+                continue;
+            }
+            // a ';' may have been written before the generator gave up
+            while gave_up && matches!(msg.last(), Some(b';') | Some(b' ') | Some(b'\t') | Some(b'\r') | Some(0x0c)) {
+                msg.pop();
             }
             let ending = *rng.pick(&ENDINGS);
             render_ending(rng, ending, &mut msg);
